@@ -111,6 +111,10 @@ fn server_scenario(rep: &mut Report, pool: &Pool, res: &Resources, req: &WireReq
         rec.script.features = VIRTIO_F_PROTOCOL_FEATURES | 3;
         rec.script.proto = PF_ALL_DEFINED;
         rec.keep_files = keep;
+        // files the application hands to the library BY VALUE for a reply (inflight area, shared
+        // object, device-state channel): the library must close its copy after sending
+        rec.ret_file = Some(res.ret.try_clone().unwrap());
+        rec.script.state_returns_file = nfds % 2 == 1;
         let s = RawSession::new(rec);
         if negotiated {
             s.negotiate(VIRTIO_F_PROTOCOL_FEATURES | 3, PF_ALL_DEFINED);
